@@ -5,6 +5,7 @@ import (
 	"go/ast"
 	"go/parser"
 	"go/token"
+	"os"
 	"path/filepath"
 	"sort"
 	"strings"
@@ -22,12 +23,38 @@ type Access struct {
 	Region int  // number of the critical section of s.mu inside Func the access lies in (0 = not under the lock)
 }
 
-var serviceFields = map[string]bool{"state": true, "nc": true, "inCh": true, "rwork": true, "workqueue": true, "workbuf": true,
-	"workcond": true, "wg": true, "mu": true, "logger": true, "queueGroup": true, "resetResources": true, "resetAccess": true,
-	"queryTQ": true, "queryDuration": true, "workerCount": true, "inChannelSize": true, "onServe": true, "onDisconnect": true,
-	"onReconnect": true, "onError": true}
-var workFields = map[string]bool{"queue": true, "single": true, "wid": true}
-var qeFields = map[string]bool{"sub": true, "ch": true, "cb": true, "done": true, "r": true}
+// The tracked fields are ALL named fields of the three structs, read from the type declarations of the source
+// on every run: a field added by a change shows up in the table and, being unclassified by the policy
+// (Sched/Access.v loc_ok), is reported until it is classified. (The embedded *Mux is not a shared-state field.)
+var serviceFields, workFields, qeFields map[string]bool
+
+func structFields(files []*ast.File, name string) map[string]bool {
+	out := map[string]bool{}
+	for _, f := range files {
+		for _, d := range f.Decls {
+			gd, ok := d.(*ast.GenDecl)
+			if !ok {
+				continue
+			}
+			for _, sp := range gd.Specs {
+				ts, ok := sp.(*ast.TypeSpec)
+				if !ok || ts.Name.Name != name {
+					continue
+				}
+				st, ok := ts.Type.(*ast.StructType)
+				if !ok {
+					continue
+				}
+				for _, fl := range st.Fields.List {
+					for _, n := range fl.Names {
+						out[n.Name] = true
+					}
+				}
+			}
+		}
+	}
+	return out
+}
 
 // functions that run with s.mu held by their caller / via defer for their whole body
 var lockedFuncs = map[string]bool{"work.processQueue": true, "Service.startWorker": true}
@@ -51,11 +78,20 @@ func structOf(recvType string, x ast.Expr, env map[string]string) string {
 func Collect(repo string) ([]Access, error) {
 	fset := token.NewFileSet()
 	var out []Access
-	for _, name := range []string{"service.go", "worker.go", "queryevent.go", "resource.go", "request.go", "getrequest.go", "mux.go"} {
+	names := []string{"service.go", "worker.go", "queryevent.go", "resource.go", "request.go", "getrequest.go", "mux.go"}
+	var files []*ast.File
+	for _, name := range names {
 		f, err := parser.ParseFile(fset, filepath.Join(repo, name), nil, 0)
 		if err != nil {
 			return nil, err
 		}
+		files = append(files, f)
+	}
+	serviceFields, workFields, qeFields = structFields(files, "Service"), structFields(files, "work"), structFields(files, "queryEvent")
+	if len(serviceFields) == 0 || len(workFields) == 0 || len(qeFields) == 0 {
+		return nil, fmt.Errorf("struct declarations of Service / work / queryEvent not found")
+	}
+	for _, f := range files {
 		for _, d := range f.Decls {
 			fd, ok := d.(*ast.FuncDecl)
 			if !ok || fd.Body == nil {
@@ -487,4 +523,13 @@ func CoqTable(acc []Access) string {
 		s += "\n"
 	}
 	return s + "].\n"
+}
+
+// RepoDir is the checkout of the library the harness was built against: /repo, unless the developer tool
+// tools/try_seed_scratch.sh points the driver at a scratch copy (VERIF_REPO).
+func RepoDir() string {
+	if d := os.Getenv("VERIF_REPO"); d != "" {
+		return d
+	}
+	return "/repo"
 }
